@@ -407,6 +407,11 @@ func c03layers(r *h.Rand, withCollection bool) mvt.Layers {
 	}
 	for i := 0; i < nl; i++ {
 		l := &mvt.Layer{Name: []string{"roads", "water", "", "pois", "L" + fmt.Sprint(i)}[r.Intn(5)], Version: uint32(1 + r.Intn(2)), Extent: uint32(256 << uint(r.Intn(6)))}
+		if i > 0 && r.P(1, 6) {
+			// the same name, version and extent as an earlier layer: still a layer of its own, in its own place
+			e := layers[r.Intn(len(layers))]
+			l.Name, l.Version, l.Extent = e.Name, e.Version, e.Extent
+		}
 		nf := r.Geom(4, 30)
 		for j := 0; j < nf; j++ {
 			f := geojson.NewFeature(c03geom(r, r.Intn(8)))
